@@ -30,6 +30,8 @@ def run(chk, repo, tier):
     chk.clause('C07-b', 'accumulation adds weight*value into out and nothing else; Wavefront.insert forwards weight and returns out', 3)
     chk.clause('C07-c', 'phasor exponent is +2*pi*i*opd/wavelength (dimensionless)', 4)
     chk.clause('C07-d', 'zero outside the mask: the mask is a factor of every phasor', 4)
+    from .extra_rules import mask_support_rule
+    mask_support_rule(chk, repo, 'C07-d')
     chk.clause('C07-e', 'wavelength unchanged, focal length forwarded, Pupil hands over its focal length after delegating', 4)
     chk.clause('C07-f', 'a plane with default attributes is the identity (phasor folds to 1)', 1)
     chk.clause('C07-g', 'inconsistent pixel scales are refused (both components compared)', 1)
